@@ -275,6 +275,65 @@ def c06_async(oi: int, fail: int, waiting: bool) -> bool:
 
 
 # ---------------------------------------------------------------------------------------------
+EXIT_OPS = ('signal', 'kill', 'incr', 'start')
+EXIT_KINDS = ('SystemExit', 'KeyboardInterrupt', 'GeneratorExit')
+
+
+def c06_exit(oi: int, ki: int, waiting: bool) -> bool:
+    """
+    "also when the requested operation fails part-way": user hook code that leaves through an exception which is NOT an
+    Exception subclass (sys.exit() in a hook, KeyboardInterrupt, GeneratorExit) during the synchronous part of a command still
+    yields exactly one error reply, and the daemon serves the next request.
+
+    pre: 0 <= oi < len(EXIT_OPS) and 0 <= ki < len(EXIT_KINDS)
+    post: _
+    """
+    import json
+    oi = rt.pick(oi, len(EXIT_OPS))
+    ki = rt.pick(ki, len(EXIT_KINDS))
+    exc = {'SystemExit': SystemExit, 'KeyboardInterrupt': KeyboardInterrupt, 'GeneratorExit': GeneratorExit}[EXIT_KINDS[ki]]
+    armed = {'on': False}
+
+    def hook(*a, **kw):
+        if armed['on']:
+            raise exc(3) if exc is SystemExit else exc()
+        return True
+    op = EXIT_OPS[oi]
+    hname = {'signal': 'before_signal', 'kill': 'before_signal', 'incr': 'before_spawn', 'start': 'before_start'}[op]
+    with World() as w:
+        k = w.kernel
+        k.behaviour = lambda i, argv: Beh(obey=0.0)
+        wa = w.mk_watcher('a', numprocesses=1, graceful_timeout=0.2, hooks={hname: (hook, False)})
+        wb = w.mk_watcher('b', numprocesses=1, graceful_timeout=0.2)
+        w.boot([wa, wb], check_delay=-1)
+        if op == 'start':
+            w.call('stop', name='a', waiting=True, match='simple')
+        props = {'signal': {'name': 'a', 'signum': 'usr1'}, 'kill': {'name': 'a'}, 'incr': {'name': 'a', 'nb': 1},
+                 'start': {'name': 'a', 'match': 'simple'}}[op]
+        if waiting:
+            props = dict(props, waiting=True)
+        armed['on'] = True
+        raw = json.dumps({'id': 'x1', 'command': op, 'properties': props}).encode()
+        replies, _n = _deliver_raw(w, raw)
+        armed['on'] = False
+        ok = True
+        if replies is None:
+            rt.note('%s: %s raised by the %s hook escaped the request handler: no reply, and the loop that ran the handler is gone', op,
+                    EXIT_KINDS[ki], hname)
+            return rt.verdict(False)
+        try:
+            w.run_for(1.0)
+        except (scen.Diverged, scen.BlockedLoop):
+            return rt.skip()
+        got = [o for (_c, o) in w.replies if isinstance(o, dict) and o.get('id') == 'x1']
+        if len(got) != 1 or got[0].get('status') not in ('ok', 'error'):
+            rt.note('%s with a %s hook leaving through %s: replies %r', op, hname, EXIT_KINDS[ki], got)
+            ok = False
+        ok = _still_serving(w) and ok
+        return rt.verdict(ok)
+
+
+# ---------------------------------------------------------------------------------------------
 REPLY_KINDS = ('own', 'stale', 'foreign', 'noid', 'dup_own', 'garbage_json', 'silence')
 
 
@@ -511,6 +570,8 @@ def plan(tier):
                      'properties': 'S: %d menus of valid and ill-typed fields' % len(PROPS)}),
         Cond('c06_async', budget=240 if q else 900, twins=1,
              bounds={'operation': 'S%r' % (OPS,), 'fail': 'S: which spawn raises an unexpected exception {none, 1st, 2nd, 3rd}', 'waiting': 'S{False, True}'}),
+        Cond('c06_exit', budget=60, twins=1,
+             bounds={'op': 'S%r' % (EXIT_OPS,), 'exception': 'S%r raised by the hook the operation calls first' % (EXIT_KINDS,), 'waiting': 'S{False, True}'}),
         Cond('c06_client', budget=120 if q else 600, twins=1,
              bounds={'k1,k2,k3': 'S%r' % (REPLY_KINDS,), 'resend': 'S{False, True}: the same message dict is sent again',
                      'stall': 'S{never, while handling reply 1 / 2 / 3}: the client is descheduled for 1.5 x its timeout'}),
